@@ -127,6 +127,15 @@ def families(tier):
             # gap 0: the producer never lets the bus rest; virtual time then only passes through the 'slow callbacks' deviation (a pending timer becomes due in mid-burst)
             out.append(dict(prop='C16', family='c16.stop_while_refed', id=f'c16/refed-{hshape}-g{gap}-t{t}-s{pre_sleep}', cfg=dict(cfg, cap=3000, max_points=200, busy_timers=0 if gap else 1, window=0.45, bound=2), params=dict(state='refed', tmo=t),
                             scn=dict(buses={'A': {}}, order=['A'], handlers=hs, main=main, actors=[producer], forwards=[], settle=1.5, join_actors=False)))
+    # ordinary code tries to use the bus again after stop() returned (the dispatch is refused: the queue is shut down): whatever stop() left behind
+    # - a backlog, a cancelled handler - must stay dead
+    for (sname, names, hs, pre), tmo, gap in itertools.product(_states(deep), (None, 0, 0.3), ('none', 'pause', 'sleep')):
+        if sname not in ('backlog1', 'backlog3', 'paused', 'paused2', 'awaiting_child_A', 'two_buses', 'slow_cleanup'):
+            continue
+        hs2 = list(hs) + [dict(bus='A', pat='Z', name='hzA', prog=[('ret', 0)])]
+        main = list(pre) + [('stop', 'A', tmo)] + {'none': [], 'pause': [('pause',)], 'sleep': [('sleep', 0.15)]}[gap] + [('disp', 'A', 'Z', 'ff'), ('pause',), ('disp', 'A', 'Z2', 'ff'), ('sleep', 0.3)]
+        out.append(dict(prop='C16', family='c16.dispatch_after_stop', id=f'c16/again-{sname}-t{tmo}-{gap}', cfg=cfg, params=dict(state=sname, tmo=tmo),
+                        scn=dict(buses={b: {} for b in names}, order=names, handlers=hs2, main=main, actors=[], forwards=[], settle=1.5)))
     # stop() called again on a bus that was already stopped (teardown code typically does), with and without a positive timeout, while a backlog is left over
     for (sname, names, hs, pre), t1, t2, gap in itertools.product(_states(deep), (None, 0), (0.3, None, 0), ('pause', 'sleep')):
         if sname not in ('backlog3', 'paused', 'paused2', 'two_buses', 'awaiting_child_A'):
@@ -177,7 +186,10 @@ def oracle(spec, res):
         limit = (s['timeout'] or 0) + 0.2 + 1e-3
         if s['te'] - s['tb'] > limit:
             out.append(V('stop_took_too_long', f'stop({s["timeout"]}) took {s["te"] - s["tb"]:.3f} virtual seconds > {limit:.3f}', state=st))
-        late = [en for en in tr.enters if en[2] == s['bus'] and en[0] > s['end']]
-        if late and st != 'refed':  # (in the re-fed family the producer keeps calling dispatch() after stop(): restart-by-dispatch is outside the statement)
+        # (a handler start for an event that a LATER dispatch() got accepted - possible only where this stop() found the bus not running and did
+        # nothing - is new use of the bus, not something stop() left behind)
+        before = {d[4] for d in tr.dispatches if d[3] == s['bus'] and d[5] == 'ok' and d[0] < s['end']}
+        late = [en for en in tr.enters if en[2] == s['bus'] and en[0] > s['end'] and en[4] in before]
+        if late:
             out.append(V('handler_started_after_stop_returned', f'{late[0]} (stop returned at seq {s["end"]})', state=st))
     return out
